@@ -236,6 +236,36 @@ def analyse(s, ctx, desc):
     return hits, line, dict(sections=sections, cancels_seen=cancels_seen)
 
 
+def py_spec(kind, secs, finals):
+    """or / and fold over the completion order, written directly from the property statement."""
+    def truthy(o):
+        return o[0] == "ok" and bool(o[1])
+    for j in secs:
+        if (kind == "or" and truthy(finals[j])) or (kind == "and" and not truthy(finals[j])):
+            return j
+    return secs[-1] if secs else None
+
+
+def direct_monitor(desc, ctx, exp):
+    hits = []
+    n = len(ctx.inputs)
+    secs = exp["sections"]
+    if getattr(ctx, "cancel_out_result", None) is True or len(set(secs)) != len(secs):
+        return hits
+    fin = ctx.final
+    j = py_spec(desc["kind"], secs, ctx.in_final)
+    decided = j is not None and ((desc["kind"] == "or") == (ctx.in_final[j][0] == "ok" and bool(ctx.in_final[j][1])) or sorted(secs) == list(range(n)))
+    if decided:
+        want = ctx.in_final[j]
+        same = fin[0] == want[0] and (fin[0] == "cancelled" or fin[1] is want[1])
+        if not same:
+            hits.append(hit("C14/wrong-outcome", "f_%s over completion order %r resolved with %s; the %s fold gives the outcome of input %d (%s)"
+                            % (desc["kind"], secs, fin[0], desc["kind"], j, want[0])))
+    elif fin[0] != "pending":
+        hits.append(hit("C14/resolved-early", "output is %s although the fold is undecided after %r" % (fin[0], secs)))
+    return hits
+
+
 def compare(desc, ctx, exp, lean):
     """lean: 'outcome [cancels] done'"""
     hits = []
@@ -295,16 +325,21 @@ def run_one(desc):
     if s.end_reason != "done":
         hits.append(hit("C14/stuck:%s" % s.end_reason, "scenario ended with %s; parked %r" % (s.end_reason, s.parked())))
     validated = 0
+    divs = []
     if line is not None:
         out = leanval.validate_blocks([["S oracle", line, "."]])[0]
         lean = out[len("ORACLE "):]
-        hits.extend(compare(desc, ctx, exp, lean))
+        hits.extend(direct_monitor(desc, ctx, exp))
+        cmp = compare(desc, ctx, exp, lean)
+        direct_sigs = ("C14/nocancel-pierced", "C14/output-cancel-not-forwarded", "C14/losers-not-cancelled")
+        hits.extend(h for h in cmp if h["sig"] in direct_sigs)
+        divs = [h for h in cmp if h["sig"] not in direct_sigs]
         validated = 1
     nsec = len(exp["sections"]) if exp else 0
     r = {"hits": hits, "blocks": [], "stats": {"sections": nsec, "oracle_folds": validated, "yields": s.nyields,
                                                 "kind_" + desc["kind"]: 1, "n_inputs_%d" % len(desc["inputs"]): 1},
          "schedule": list(s.chooser.record), "fingerprint": fingerprint(desc, s) if nsec >= 2 else None,
-         "verdicts": ["OK 1 1"] if validated else []}
+         "verdicts": ([("DIVERGE 1 [%s] real run vs Lean model: %s" % (line, divs[0]["detail"])) if divs else "OK 1 1"] if validated else [])}
     if desc.get("idx") == 0:
         r["sample"] = {"desc": desc, "oracle_line": line, "final": str(getattr(ctx, "final", None))[:80]}
     return r
